@@ -683,6 +683,121 @@ def uuidDeser (text : List Char) : Except Err Nat :=
     | none => .error .value
     | some i => if 0 ≤ i ∧ i < 2 ^ 128 then .ok i.toNat else .error .value
 
+/-! ### `complex`: `str(z)` and `complex(text)` on decimal tokens
+
+A part of a complex number is a sign and a *token*: the text `repr` writes for the magnitude of the float
+(`123`, `1.5`, `1e+22`, `1.5e-07`, `inf`, `nan`; `str(complex)` drops a trailing `.0`).  The float itself is
+outside the model: the assumption, stated where it is used, is Python's `float(repr(x)) == x`, so that equal
+tokens mean equal floats.  `complexParse` is `complex_from_string_inner` on texts without underscores. -/
+
+inductive Tok where
+  | dec (ip fp : List Char) (ex : Option (Bool × List Char))   -- digits [. digits] [e ± digits]
+  | inf
+  | nan
+deriving DecidableEq, Repr, Inhabited
+
+structure Part where
+  neg : Bool
+  tok : Tok
+deriving DecidableEq, Repr, Inhabited
+
+def Tok.text : Tok → List Char
+  | .dec ip fp ex =>
+    ip ++ (if fp = [] then [] else '.' :: fp) ++
+      (match ex with
+        | none => []
+        | some (n, ds) => 'e' :: (if n then '-' else '+') :: ds)
+  | .inf => "inf".toList
+  | .nan => "nan".toList
+
+def Part.zero : Part := ⟨false, .dec ['0'] [] none⟩
+def Part.one (neg : Bool) : Part := ⟨neg, .dec ['1'] [] none⟩
+
+/-- `complex.__str__` (= `repr`): `<im>j` when the real part is `+0.0`, else `(<re><±im>j)` -/
+def complexStr (re im : Part) : List Char :=
+  if re = Part.zero then (if im.neg then ['-'] else []) ++ im.tok.text ++ ['j']
+  else '(' :: ((if re.neg then ['-'] else []) ++ re.tok.text ++ ((if im.neg then '-' else '+') :: (im.tok.text ++ ['j', ')'])))
+
+/-- optional exponent `[eE][+-]?D+` (not consumed when no digit follows) -/
+def scanExp (l : List Char) : Option (Bool × List Char) × List Char :=
+  match l with
+  | e :: r =>
+    if e = 'e' ∨ e = 'E' then
+      let s := splitSign r
+      let ds := s.2.takeWhile Char.isDigit
+      if ds = [] then (none, l) else (some (s.1, ds), s.2.dropWhile Char.isDigit)
+    else (none, l)
+  | [] => (none, l)
+
+/-- the magnitude part of `strtod` / `_Py_parse_inf_or_nan`: longest prefix that is a number -/
+def scanMag (l : List Char) : Option (Tok × List Char) :=
+  match l with
+  | [] => none
+  | c :: _ =>
+    if c.isDigit ∨ c = '.' then
+      let ip := l.takeWhile Char.isDigit
+      let r1 := l.dropWhile Char.isDigit
+      let fr : List Char × List Char := match r1 with
+        | '.' :: r => (r.takeWhile Char.isDigit, r.dropWhile Char.isDigit)
+        | _ => ([], r1)
+      if ip = [] ∧ fr.1 = [] then none
+      else
+        let ex := scanExp fr.2
+        some (.dec ip fr.1 ex.1, ex.2)
+    else
+      let low := lower l
+      if "infinity".toList.isPrefixOf low then some (.inf, l.drop 8)
+      else if "inf".toList.isPrefixOf low then some (.inf, l.drop 3)
+      else if "nan".toList.isPrefixOf low then some (.nan, l.drop 3)
+      else none
+
+/-- `PyOS_string_to_double` on a prefix: optional sign, then the magnitude -/
+def scanFloat (l : List Char) : Option (Part × List Char) :=
+  let s := splitSign l
+  (scanMag s.2).map fun r => (⟨s.1, r.1⟩, r.2)
+
+def isJ (c : Char) : Bool := c = 'j' || c = 'J'
+
+/-- the tail after the numbers: blanks, the closing bracket when one was opened, blanks, end -/
+def complexTail (bracket : Bool) (l : List Char) : Bool :=
+  let l1 := l.dropWhile isNumSpace
+  if bracket then
+    match l1 with
+    | ')' :: r => (r.dropWhile isNumSpace).isEmpty
+    | _ => false
+  else l1.isEmpty
+
+/-- `complex(text)`: (real part, imaginary part) as signed tokens -/
+def complexParse (text : List Char) : Option (Part × Part) :=
+  let s0 := text.dropWhile isNumSpace
+  let br : Bool × List Char := match s0 with
+    | '(' :: r => (true, r.dropWhile isNumSpace)
+    | _ => (false, s0)
+  let fin (x y : Part) (rest : List Char) : Option (Part × Part) :=
+    if complexTail br.1 rest then some (x, y) else none
+  match scanFloat br.2 with
+  | some (z, s) =>
+    match s with
+    | c :: r =>
+      if c = '+' ∨ c = '-' then
+        match scanFloat s with
+        | some (y, s') =>
+          (match s' with
+            | j :: r' => if isJ j then fin z y r' else none
+            | [] => none)
+        | none =>
+          (match r with
+            | j :: r' => if isJ j then fin z (Part.one (c = '-')) r' else none
+            | [] => none)
+      else if isJ c then fin Part.zero z r
+      else fin z Part.zero s
+    | [] => fin z Part.zero s
+  | none =>
+    let sg := splitSign br.2
+    match sg.2 with
+    | j :: r' => if isJ j then fin Part.zero (Part.one sg.1) r' else none
+    | [] => none
+
 /-! ### `SecretStr`, `Decimal` -/
 
 /-- `SecretStr.__str__` -/
